@@ -1,8 +1,12 @@
 package wl
 
 import (
+	"crypto/x509"
+	"encoding/pem"
 	"fmt"
 	"math/rand"
+	"os"
+	"path/filepath"
 	"strings"
 	"sync"
 	"time"
@@ -11,6 +15,7 @@ import (
 	"github.com/xelaj/mtproto/internal/session"
 	"github.com/xelaj/mtproto/telegram"
 	"github.com/xelaj/mtproto/zverif/ref/mtp"
+	ts "github.com/xelaj/mtproto/zverif/ref/tlschema"
 	"github.com/xelaj/mtproto/zverif/refserver"
 	"github.com/xelaj/mtproto/zverif/wk"
 )
@@ -294,6 +299,14 @@ func c17e2e(c *wk.Ctx) {
 		}
 		idx++
 	}
+	// (a3) the data-centre table filled by telegram.NewClient from help.getConfig, then a migration through it
+	for k := 0; k < c.Pick(3, 30); k++ {
+		if c.Mine(idx) {
+			c.Begin(idx, fmt.Sprintf("NewClient + migrate %d", k))
+			c17newClient(c, idx, c.Rand(idx))
+		}
+		idx++
+	}
 	// (b) PHONE_MIGRATE_X
 	for k := 0; k < c.Pick(6, 80); k++ {
 		if c.Mine(idx) {
@@ -500,4 +513,156 @@ func classOfText(t string) string {
 		return t[:i+1] + "*"
 	}
 	return "other"
+}
+
+// c17newClient: telegram.NewClient performs a key exchange, asks help.getConfig (wrapped in invokeWithLayer /
+// initConnection) and fills the data-centre table from the answer; a request answered with PHONE_MIGRATE_<id>
+// for an id of that table must then be repeated at the address the configuration named.
+func c17newClient(c *wk.Ctx, idx int, r *rand.Rand) {
+	if err := loadSchemas(); err != nil {
+		c.Log.Emit(coreInconclusive(err.Error()))
+		return
+	}
+	w := newWorld(c, idx)
+	defer w.close()
+	dcID := 2 + r.Intn(200)
+	cdnID := dcID + 1
+	var srv1, srv2 *refserver.Server
+	var mu sync.Mutex
+	arrived2 := map[uint64]int{}
+	srv2 = w.server(refserver.HandlerFunc(func(cn *refserver.Conn, in *mtp.Inner) {
+		if uid, _, res, ok := answerFor(in.Body); ok {
+			mu.Lock()
+			arrived2[uid]++
+			mu.Unlock()
+			cn.SendEncrypted(refserver.Out{MsgID: srv2.NextMsgID(1), SeqNo: cn.NextSeq(true), Body: refserver.RPCResult(in.MsgID, res)}, in.Salt, "rpc_result", map[string]interface{}{"uid": fmt.Sprint(uid)})
+		}
+	}))
+	host2, port2 := splitHostPort(srv2.Addr)
+	// the configuration the first server hands out
+	cfgDef := allSchema.ByName["config"]
+	dcDef := allSchema.ByName["dcOption"]
+	if cfgDef == nil || dcDef == nil {
+		c.Log.Emit(coreInconclusive("c17newClient: schema lacks config/dcOption"))
+		return
+	}
+	mkDC := func(id int, ip string, port int, cdn bool) ts.Value {
+		v := ts.Value{Kind: ts.KCon, Def: dcDef, Fields: make([]ts.Value, len(dcDef.Params))}
+		for i, p := range dcDef.Params {
+			switch p.Name {
+			case "flags":
+				v.Fields[i] = ts.Value{Kind: ts.KFlags}
+			case "id":
+				v.Fields[i] = ts.Value{Kind: ts.KInt, I: int64(id)}
+			case "ip_address":
+				v.Fields[i] = ts.Value{Kind: ts.KStr, B: []byte(ip)}
+			case "port":
+				v.Fields[i] = ts.Value{Kind: ts.KInt, I: int64(port)}
+			case "cdn":
+				if cdn {
+					v.Fields[i] = ts.Value{Kind: ts.KTrue, I: 1}
+				}
+			}
+		}
+		return v
+	}
+	cfg := allSchema.Gen(cfgDef, &ts.GenOpts{R: r, MaxDepth: 1, Presence: map[int]bool{}, ForceStrLen: -1, Simple: true}, 0)
+	for i, p := range cfgDef.Params {
+		if p.Name == "dc_options" {
+			cfg.Fields[i] = ts.Value{Kind: ts.KVec, Elems: []ts.Value{mkDC(1, "127.0.0.1", 1, false), mkDC(dcID, host2, port2, false), mkDC(cdnID, "127.0.0.1", 2, true)}}
+		}
+	}
+	cfgBytes, err := ts.Serialize(cfg)
+	if err != nil {
+		c.Log.Emit(coreInconclusive("c17newClient: " + err.Error()))
+		return
+	}
+	var sawWrapped int32
+	srv1 = w.server(refserver.HandlerFunc(func(cn *refserver.Conn, in *mtp.Inner) {
+		key, _ := cn.KeySession()
+		salt, _ := srv1.Salt(key)
+		if u32le0(in.Body) == 0xda9b0d0d { // invokeWithLayer(initConnection(help.getConfig))
+			rd := &ts.Reader{B: in.Body}
+			if v, derr := allSchema.ReadBoxed(rd); derr == nil && rd.Pos == len(in.Body) && v.Def.Name == "invokeWithLayer" {
+				q := v.Fields[len(v.Fields)-1]
+				if q.Def != nil && q.Def.Name == "initConnection" && q.Fields[len(q.Fields)-1].Def != nil && q.Fields[len(q.Fields)-1].Def.Name == "help.getConfig" {
+					sawWrapped = 1
+				}
+			}
+			cn.SendEncrypted(refserver.Out{MsgID: srv1.NextMsgID(1), SeqNo: cn.NextSeq(true), Body: refserver.RPCResult(in.MsgID, cfgBytes)}, salt, "rpc_result", nil)
+			return
+		}
+		if uid, kind, res, ok := answerFor(in.Body); ok {
+			body := res
+			if kind == "object" {
+				body = refserver.RPCError(303, fmt.Sprintf("PHONE_MIGRATE_%d", dcID))
+			}
+			if kind == "bool" {
+				body = refserver.RPCError(303, fmt.Sprintf("PHONE_MIGRATE_%d", cdnID)) // CDN entries are not part of the table
+			}
+			cn.SendEncrypted(refserver.Out{MsgID: srv1.NextMsgID(1), SeqNo: cn.NextSeq(true), Body: refserver.RPCResult(in.MsgID, body)}, salt, "rpc_result", map[string]interface{}{"uid": fmt.Sprint(uid)})
+		}
+	}))
+	srv2.RSA = srv1.RSA
+	keyFile := filepath.Join(w.dir, "keys.pem")
+	os.WriteFile(keyFile, pem.EncodeToMemory(&pem.Block{Type: "RSA PUBLIC KEY", Bytes: x509.MarshalPKCS1PublicKey(&srv1.RSA.PublicKey)}), 0o644)
+	var cl *telegram.Client
+	var cerr error
+	var pan bool
+	var pm, st string
+	if !withTimeout(60*time.Second, func() {
+		pan, pm, st = wk.Guard(func() {
+			cl, cerr = telegram.NewClient(telegram.ClientConfig{SessionFile: w.sessionPath("nc"), ServerHost: srv1.Addr, PublicKeysFile: keyFile, AppID: 1, AppHash: "h", InitWarnChannel: true})
+		})
+	}) {
+		if stl, dump := isStalled(); stl {
+			c.Viol("C17", idx, "newclient/stall", "telegram.NewClient never returned", dump)
+		} else {
+			c.Log.Emit(coreInconclusive("c17newClient: NewClient did not return"))
+		}
+		return
+	}
+	if pan || cerr != nil {
+		c.Viol("C17", idx, "newclient/failed", fmt.Sprint("telegram.NewClient against a conformant server: ", pm, cerr, " ", st), nil)
+		return
+	}
+	go func() {
+		for range cl.Warnings {
+		}
+	}()
+	defer safeDisconnect(cl.MTProto)
+	if sawWrapped == 0 {
+		c.Viol("C17", idx, "newclient/init-request-shape", "the first request was not invokeWithLayer(initConnection(help.getConfig))", nil)
+	}
+	// the key exchange made srv1 know the key; srv2 shares the key store; give it a salt
+	srv2.SetSalt(cl.GetAuthKey(), cl.GetServerSalt())
+	e := &rpcEnv{c: c, idx: idx, w: w, srv: srv1, m: cl.MTProto, tc: cl}
+	uid := uint64(r.Uint32()) | uint64(r.Uint32())<<32
+	var rec callRec
+	if !withTimeout(40*time.Second, func() { rec = e.doCall(0, uid, "object", true) }) {
+		if stl, dump := isStalled(); stl {
+			c.Viol("C17", idx, "newclient/migrate-stall", "the migrating request never returned", dump)
+		} else {
+			c.Log.Emit(coreInconclusive("c17newClient: migrating call did not return"))
+		}
+		return
+	}
+	mu.Lock()
+	at2 := arrived2[uid]
+	mu.Unlock()
+	if rec.Panic != "" || !rec.OK || at2 < 1 {
+		c.Viol("C17", idx, "newclient/migrate-to-configured-dc", fmt.Sprintf("help.getConfig named DC %d at %s; PHONE_MIGRATE_%d: request arrived %d times there; call ok=%v err=%q panic=%q", dcID, srv2.Addr, dcID, at2, rec.OK, rec.Err, rec.Panic), nil)
+	}
+	c.Count("e2e.newclient_migrations", 1)
+	c.Distinct("newclient", dcID, port2)
+	if idx%2 == 0 {
+		c.Sample(map[string]interface{}{"path": "telegram.NewClient -> help.getConfig -> SetDCList -> PHONE_MIGRATE", "dc": dcID})
+	}
+}
+
+func splitHostPort(a string) (string, int) {
+	i := strings.LastIndex(a, ":")
+	p := 0
+	fmt.Sscan(a[i+1:], &p)
+	return a[:i], p
 }
